@@ -54,17 +54,25 @@ def parseOpt : List String → Option LogOpt
   | ["skip", l] => (parseStrs l).map .skip
   | _ => none
 
+def mkReq (id fr ct f sh : String) : Option Call := do
+  let ct ← parseStr ct
+  let f ← parseFault f
+  let sh ← sh.toNat?
+  if fr = "1" then some (.req id ⟨true, ct, f, sh⟩) else if fr = "0" then some (.req id ⟨false, ct, f, sh⟩) else none
+
+def mkRes (id ct f sh : String) : Option Call := do
+  let ct ← parseStr ct
+  let f ← parseFault f
+  let sh ← sh.toNat?
+  some (.res id ⟨false, ct, f, sh⟩)
+
 def parseCall : List String → Option Call
   | ["req", id] => some (.req id Msg.plain)
   | ["res", id] => some (.res id Msg.plain)
-  | ["reqm", id, fr, ct, f] => do
-    let ct ← parseStr ct
-    let f ← parseFault f
-    if fr = "1" then some (.req id ⟨true, ct, f⟩) else if fr = "0" then some (.req id ⟨false, ct, f⟩) else none
-  | ["resm", id, ct, f] => do
-    let ct ← parseStr ct
-    let f ← parseFault f
-    some (.res id ⟨false, ct, f⟩)
+  | ["reqm", id, fr, ct, f] => mkReq id fr ct f "0"
+  | ["reqm", id, fr, ct, f, sh] => mkReq id fr ct f sh
+  | ["resm", id, ct, f] => mkRes id ct f "0"
+  | ["resm", id, ct, f, sh] => mkRes id ct f sh
   | "opt" :: "post" :: rest => (parseOpt rest).map .setPost
   | "opt" :: "body" :: rest => (parseOpt rest).map .setBody
   | ["export"] => some .exp
@@ -86,12 +94,12 @@ def doCall (s : St) (c : Call) : St × String :=
     body reader fails, `-` / `+` = body and post-data logging off / on. -/
 def charCalls (c : Char) : Option (List Call) :=
   if c = 'e' then some [.exp] else if c = 'x' then some [.xreset] else if c = 'r' then some [.reset]
-  else if c = '1' then some [.res "a" ⟨false, "", .read⟩]
-  else if c = '2' then some [.res "b" ⟨false, "", .read⟩]
-  else if c = '3' then some [.res "c" ⟨false, "", .read⟩]
-  else if c = '4' then some [.req "a" ⟨true, "", .read⟩]
-  else if c = '5' then some [.req "b" ⟨true, "", .read⟩]
-  else if c = '6' then some [.req "c" ⟨true, "", .read⟩]
+  else if c = '1' then some [.res "a" ⟨false, "", .read, 0⟩]
+  else if c = '2' then some [.res "b" ⟨false, "", .read, 0⟩]
+  else if c = '3' then some [.res "c" ⟨false, "", .read, 0⟩]
+  else if c = '4' then some [.req "a" ⟨true, "", .read, 0⟩]
+  else if c = '5' then some [.req "b" ⟨true, "", .read, 0⟩]
+  else if c = '6' then some [.req "c" ⟨true, "", .read, 0⟩]
   else if c = '-' then some [.setPost (.all false), .setBody (.all false)]
   else if c = '+' then some [.setPost (.all true), .setBody (.all true)]
   else if c.isLower then some [.req (String.singleton c) Msg.plain]
@@ -118,8 +126,8 @@ def parseTagged (tok : String) : Option (Nat × Call) :=
   match tok.splitOn ":" with
   | [t, "q", id] => t.toNat?.map (·, .req id Msg.plain)
   | [t, "s", id] => t.toNat?.map (·, .res id Msg.plain)
-  | [t, "Q", id] => t.toNat?.map (·, .req id ⟨true, "", .read⟩)
-  | [t, "S", id] => t.toNat?.map (·, .res id ⟨false, "", .read⟩)
+  | [t, "Q", id] => t.toNat?.map (·, .req id ⟨true, "", .read, 0⟩)
+  | [t, "S", id] => t.toNat?.map (·, .res id ⟨false, "", .read, 0⟩)
   | [t, "e"] => t.toNat?.map (·, .exp)
   | [t, "x"] => t.toNat?.map (·, .xreset)
   | [t, "r"] => t.toNat?.map (·, .reset)
@@ -134,9 +142,45 @@ def linOp (toks : List String) : String :=
       (s', line :: acc.2)) (init, [])
     "lin " ++ "|".intercalate outs.reverse
 
+/-- long lists are compared through a summary: length, first and last entry, a checksum over all. -/
+def showObsShort : Obs → String
+  | .log es =>
+    if es.length ≤ 8 then showObs (.log es) else
+    let sum := es.foldl (fun acc e => (acc * 31 + e.rq * 7 + (match e.rs with | some t => t + 1 | none => 0)) % 1000003) 0
+    "log n=" ++ toString es.length ++ " " ++ (es.head?.map showEnt).getD "" ++ " .. " ++
+      (es.getLast?.map showEnt).getD "" ++ " sum=" ++ toString sum
+  | o => showObs o
+
+/-- `bulk N i1,i2,…`: on a fresh Logger, requests b0 … b(N-1); a response for every one except the
+    listed indices; export-and-reset; export; then for every listed (still pending) entry a
+    duplicate request and a response; export, export-and-reset, export. -/
+def bulkCalls (n : Nat) (pend : List Nat) : List Call :=
+  let ids := List.range n
+  let bid (i : Nat) : String := "b" ++ toString i
+  ids.map (fun i => Call.req (bid i) Msg.plain) ++
+  (ids.filter (fun i => !pend.contains i)).map (fun i => Call.res (bid i) Msg.plain) ++
+  [.xreset, .exp] ++
+  pend.flatMap (fun i => [Call.req (bid i) Msg.plain, Call.res (bid i) Msg.plain]) ++
+  [.exp, .xreset, .exp]
+
+def bulkOp (n : Nat) (pend : List Nat) : String :=
+  let (_, outs) := (bulkCalls n pend).foldl (fun (acc : St × List String) c =>
+    let (l', ob) := acc.1.lg.step acc.1.t c
+    let (g', ob') := acc.1.sl.step acc.1.t c
+    let line := if ob = ob' then showObsShort ob else "levels-differ " ++ showObsShort ob ++ " / " ++ showObsShort ob'
+    -- the n requests and the responses are summarised as counts below
+    (⟨l', g', acc.1.t + 1⟩, line :: acc.2)) (init, [])
+  let outs := outs.reverse
+  let oks := (outs.filter (· == "ok")).length
+  "bulk ok=" ++ toString oks ++ " " ++ "|".intercalate (outs.filter (· != "ok"))
+
 def step (s : St) (toks : List String) : St × String :=
   match toks with
   | ["seq", w] => (s, seqOp w)
+  | ["bulk", n, pend] =>
+    match n.toNat?, natList pend with
+    | some n, some pend => (s, bulkOp n pend)
+    | _, _ => (s, "bad-op")
   | "lin" :: rest => (s, linOp rest)
   | _ => match parseCall toks with
     | some c => doCall s c
